@@ -135,15 +135,34 @@ m('c10-serve-no-closeinput', 'C10', 'session.go', '''	defer func() {
 		s.closeInputStream()
 		e := s.Close()''', '''	defer func() {
 		e := s.Close()''')
-m('c10-senderror-drops-err', 'C10', 'session.go', '''	if s.state&OutputStreamClosed == OutputStreamClosed {
+m('c10-senderror-drops-err', 'C10', 'session.go', '''	if s.outputClosed() {
 		return err
 	}
 
-	se := stream.Error{}''', '''	if s.state&OutputStreamClosed == OutputStreamClosed {
+	se := stream.Error{}''', '''	if s.outputClosed() {
 		return nil
 	}
 
 	se := stream.Error{}''')
+m('c10-close-holds-state-lock', 'C10', 'session.go', '''	s.state |= OutputStreamClosed
+	s.stateMutex.Unlock()
+
+''', '''	s.state |= OutputStreamClosed
+	defer s.stateMutex.Unlock()
+
+''')
+m('c10-closesession-bit-after-unlock', 'C10', 'session.go', '''	s.state |= OutputStreamClosed
+	s.stateMutex.Unlock()
+
+''', '''	s.stateMutex.Unlock()
+	s.state |= OutputStreamClosed
+
+''')
+m('c10-senderror-no-closed-check', 'C10', 'session.go', '''	if s.outputClosed() {
+		return err
+	}
+
+	se := stream.Error{}''', '''	se := stream.Error{}''')
 m('c10-deadline-unsynchronised', 'C10', 'session.go', '''	s.stateMutex.Lock()
 	oldCancel := s.in.cancel
 	s.in.ctx, s.in.cancel = context.WithDeadline(context.Background(), t)
